@@ -11,14 +11,21 @@ import (
 	"math"
 	"os"
 	"strings"
+	"sync/atomic"
+	"time"
 
 	proto "github.com/kubewharf/kubebrain-client/api/v2rpc"
+
+	"github.com/kubewharf/kubebrain/pkg/backend/coder"
+	"github.com/kubewharf/kubebrain/pkg/storage"
 
 	"kbverif/lib"
 )
 
+var cd = coder.NewNormalCoder()
+
 type read struct {
-	Kind  string // get | list | count
+	Kind  string // get | list | count | stream
 	A, B  []byte
 	Rev   uint64
 	Limit int64
@@ -58,6 +65,8 @@ func doRead(n *lib.RSNode, r read) (out readOut) {
 	defer func() {
 		if p := recover(); p != nil {
 			switch r.Kind {
+			case "stream":
+				out = readOut{coq: lib.App("QStream", lib.Bytes(r.A), lib.Bytes(r.B), lib.N(r.Rev), "[]"), outcome: "stream-panic"}
 			case "get":
 				out = readOut{coq: lib.App("QGet", lib.Bytes(r.A), lib.N(r.Rev), "GetPanic"), outcome: "get-panic"}
 			case "list":
@@ -68,6 +77,38 @@ func doRead(n *lib.RSNode, r read) (out readOut) {
 		}
 	}()
 	switch r.Kind {
+	case "stream":
+		ch, err := n.B.ListByStream(ctx, cd.EncodeObjectKey(r.A, 0), cd.EncodeObjectKey(r.B, 0), r.Rev)
+		if err != nil {
+			return readOut{coq: lib.App("QStream", lib.Bytes(r.A), lib.Bytes(r.B), lib.N(r.Rev), "[]"), outcome: "stream-error"}
+		}
+		var xs []string
+		k := 0
+		deadline := time.After(20 * time.Second)
+	loop:
+		for {
+			select {
+			case m, ok := <-ch:
+				if !ok {
+					break loop
+				}
+				if m == nil || m.RangeResponse == nil || m.RangeResponse.Header == nil {
+					xs = append(xs, "(mk_smsg 0 [] true true)")
+					continue
+				}
+				rr := m.RangeResponse
+				k += len(rr.Kvs)
+				xs = append(xs, lib.App("mk_smsg", lib.N(rr.Header.Revision), coqKvs(rr.Kvs), lib.Bool(rr.More), lib.Bool(m.Err != "")))
+			case <-deadline:
+				xs = append(xs, "(mk_smsg 0 [] true true)") // never closed: shows as a malformed stream
+				break loop
+			}
+		}
+		oc := "stream-ok"
+		if k == 0 {
+			oc = "stream-empty"
+		}
+		return readOut{coq: lib.App("QStream", lib.Bytes(r.A), lib.Bytes(r.B), lib.N(r.Rev), lib.List(xs)), outcome: oc, kvs: k}
 	case "get":
 		resp, err := n.B.Get(ctx, &proto.GetRequest{Key: r.A, Revision: r.Rev})
 		if err != nil {
@@ -115,6 +156,10 @@ type hist struct {
 	// compaction request of phase 2: 0 = current, ^0 = none
 	compact uint64
 	nul     bool // use bounds with a trailing NUL (outside the documented alphabet)
+	// window: between the two phases a writer A is held inside its storage commit (revision r+1 allocated,
+	// nothing stored) while writer B commits r+2 and returns: reads at the reported revision r in that
+	// window, and again after A has finished
+	window bool
 }
 
 func genHist(r *lib.Rand) hist {
@@ -133,6 +178,7 @@ func genHist(r *lib.Rand) hist {
 	h := hist{keys: keys}
 	h.ops1 = lib.RSGenOps(r, keys, st, &next, 4+r.Intn(14), mc)
 	h.ops2 = lib.RSGenOps(r, keys, st, &next, r.Intn(7), mc)
+	h.window = r.Chance(1, 3)
 	switch r.Intn(6) {
 	case 0:
 		h.compact = math.MaxUint64 // none
@@ -188,6 +234,9 @@ func genReads(r *lib.Rand, h hist, ops []lib.RSOp, cur uint64, quick bool) []rea
 			}
 		}
 		reads = append(reads, read{Kind: "count", A: a, B: b})
+		if i < 2 || r.Chance(1, 3) {
+			reads = append(reads, read{Kind: "stream", A: a, B: b, Rev: revs[r.Intn(len(revs))]})
+		}
 		for _, rev := range revs {
 			if i > 1 && r.Bool() {
 				continue
@@ -236,48 +285,159 @@ type caseOut struct {
 	outcomes map[string]int
 }
 
-func coqPhase(dump []lib.KV, cur uint64, outs []readOut) string {
-	xs := make([]string, len(outs))
-	for i, o := range outs {
+type phase struct {
+	ops   []lib.RSOp
+	floor uint64
+	dump  []lib.KV
+	cur   uint64
+	outs  []readOut
+}
+
+func (ph phase) coq() string {
+	xs := make([]string, len(ph.outs))
+	for i, o := range ph.outs {
 		xs[i] = o.coq
 	}
-	return lib.App("mk_phase", lib.CoqDump(dump), lib.N(cur), "["+strings.Join(xs, ";\n  ")+"]")
+	os := make([]string, len(ph.ops))
+	for i, o := range ph.ops {
+		os[i] = o.Coq()
+	}
+	return lib.App("mk_phase", lib.List(os), lib.N(ph.floor), lib.CoqDump(ph.dump), lib.N(ph.cur), "["+strings.Join(xs, ";\n  ")+"]")
+}
+
+// gate holds one goroutine at its first BeginBatchWrite
+type gate struct {
+	goid    int64
+	parked  chan struct{}
+	release chan struct{}
 }
 
 func runHist(engine, scratch string, h hist, rr *lib.Rand, kind string, quick, full bool) (res caseOut) {
 	res.outcomes = map[string]int{}
-	kv, closer, err := lib.NewEngine(engine, scratch)
+	var kv storage.KvStorage
+	inner, closer, err := lib.NewEngine(engine, scratch)
 	if err != nil {
 		res.failure = &lib.ImplFailure{What: "engine open: " + err.Error()}
 		return
 	}
 	defer closer()
+	kv = inner
+	g := &gate{parked: make(chan struct{}, 1), release: make(chan struct{})}
+	if h.window {
+		kv = &lib.Wrap{KvStorage: inner, Before: func(k string, key []byte) error {
+			if k == "batch" && atomic.LoadInt64(&g.goid) == lib.GoID() {
+				atomic.StoreInt64(&g.goid, 0)
+				g.parked <- struct{}{}
+				<-g.release
+			}
+			return nil
+		}}
+	}
 	n := lib.NewRSNode(kv, "c03")
 	defer lib.RSRetire()
 	b := n.B
-	jsonCase := map[string]interface{}{"engine": engine, "keys": h.keys}
+	jsonCase := map[string]interface{}{"engine": engine, "keys": h.keys, "window": h.window}
 	fail := func(what string) caseOut {
 		res.failure = &lib.ImplFailure{What: what, Case: jsonCase}
 		return res
 	}
+	var phases []phase
+	var reads []read
+	snap := func(ops []lib.RSOp, floor uint64) error {
+		d, err := lib.Dump(inner)
+		if err != nil {
+			return fmt.Errorf("dump: %v", err)
+		}
+		ph := phase{ops: ops, floor: floor, dump: d, cur: b.GetCurrentRevision()}
+		for _, r := range reads {
+			o := doRead(n, r)
+			res.outcomes[o.outcome]++
+			ph.outs = append(ph.outs, o)
+		}
+		phases = append(phases, ph)
+		return nil
+	}
+	// phase 1
 	for i := range h.ops1 {
 		if err := n.Apply(&h.ops1[i]); err != nil {
 			return fail(err.Error())
 		}
 	}
 	cur1 := b.GetCurrentRevision()
-	dump1, err := lib.Dump(kv)
-	if err != nil {
-		return fail("dump: " + err.Error())
+	reads = genReads(rr, h, h.ops1, cur1, quick)
+	if err := snap(h.ops1, 0); err != nil {
+		return fail(err.Error())
 	}
-	reads := genReads(rr, h, h.ops1, cur1, quick)
-	outs1 := make([]readOut, len(reads))
-	for i, r := range reads {
-		outs1[i] = doRead(n, r)
-		res.outcomes[outs1[i].outcome]++
+	// window
+	if h.window {
+		// A: a create of a fresh key, held before its batch; B: a write on one of the history's keys
+		aop := lib.RSOp{Kind: "create", Key: []byte("/r/held"), Val: []byte("A")}
+		ra := n.Next
+		n.Next++
+		done := make(chan error, 1)
+		go func() {
+			atomic.StoreInt64(&g.goid, lib.GoID())
+			done <- n.DoAt(&aop, ra)
+		}()
+		select {
+		case <-g.parked:
+		case <-time.After(3 * time.Second):
+			return fail("window: writer A never reached its batch")
+		}
+		// B on a key of the history: update / delete when live, create otherwise (decided from the real state)
+		k := []byte(h.keys[rr.Intn(len(h.keys))])
+		bop := lib.RSOp{Kind: "create", Key: k, Val: []byte("B")}
+		if resp, err := b.Get(context.Background(), &proto.GetRequest{Key: k}); err == nil && resp.Kv != nil {
+			if rr.Bool() {
+				bop = lib.RSOp{Kind: "update", Key: k, Val: []byte("B"), Prev: resp.Kv.Revision}
+			} else {
+				bop = lib.RSOp{Kind: "delete", Key: k, Prev: 0}
+			}
+		}
+		rb := n.Next
+		n.Next++
+		if err := n.DoAt(&bop, rb); err != nil {
+			close(g.release)
+			return fail(err.Error())
+		}
+		time.Sleep(2 * time.Millisecond) // B is stored and acknowledged; the sequencer cannot pass A's open slot
+		if c := b.GetCurrentRevision(); c != cur1 {
+			close(g.release)
+			return fail(fmt.Sprintf("window: committed revision moved to %d while revision %d is unresolved", c, ra))
+		}
+		res.outcomes["window-"+bop.Kind]++
+		reads = append(reads, read{Kind: "get", A: k, Rev: cur1}, read{Kind: "get", A: k, Rev: 0}, read{Kind: "get", A: k, Rev: rb},
+			read{Kind: "get", A: aop.Key, Rev: 0}, read{Kind: "list", A: []byte("/r/"), B: []byte("/r0"), Rev: cur1}, read{Kind: "list", A: []byte("/r/"), B: []byte("/r0"), Rev: 0},
+			read{Kind: "stream", A: []byte("/r/"), B: []byte("/r0"), Rev: 0}, read{Kind: "stream", A: []byte("/r/"), B: []byte("/r0"), Rev: cur1})
+		if err := snap([]lib.RSOp{bop}, 0); err != nil {
+			close(g.release)
+			return fail(err.Error())
+		}
+		close(g.release)
+		select {
+		case err := <-done:
+			if err != nil {
+				return fail(err.Error())
+			}
+		case <-time.After(3 * time.Second):
+			return fail("window: writer A did not finish")
+		}
+		if err := n.Settle(); err != nil {
+			return fail(err.Error())
+		}
+		reads = append(reads, read{Kind: "get", A: aop.Key, Rev: ra}, read{Kind: "get", A: k, Rev: rb})
+		if err := snap([]lib.RSOp{aop}, 0); err != nil {
+			return fail(err.Error())
+		}
+		h.ops1 = append(h.ops1, bop, aop)
 	}
-	// phase 2
+	// phase 2: more writes and a compaction
 	for i := range h.ops2 {
+		if h.window && h.ops2[i].Prev != 0 { // generated before the window changed the revisions: keep it a plausible guard
+			if resp, err := b.Get(context.Background(), &proto.GetRequest{Key: h.ops2[i].Key}); err == nil && resp.Kv != nil && rr.Bool() {
+				h.ops2[i].Prev = resp.Kv.Revision
+			}
+		}
 		if err := n.Apply(&h.ops2[i]); err != nil {
 			return fail(err.Error())
 		}
@@ -291,33 +451,29 @@ func runHist(engine, scratch string, h hist, rr *lib.Rand, kind string, quick, f
 		floor = resp.Header.Revision
 	}
 	cur2 := b.GetCurrentRevision()
-	dump2, err := lib.Dump(kv)
-	if err != nil {
-		return fail("dump: " + err.Error())
-	}
-	reads2 := append([]read{}, reads...)
-	// a few reads at the new revisions
 	for _, o := range h.ops2 {
 		if o.OK {
-			reads2 = append(reads2, read{Kind: "get", A: o.Key, Rev: o.Rev})
+			reads = append(reads, read{Kind: "get", A: o.Key, Rev: o.Rev})
 		}
 	}
-	reads2 = append(reads2, read{Kind: "list", A: []byte("/r/"), B: []byte("/r0"), Rev: cur2, Limit: 0},
+	reads = append(reads, read{Kind: "list", A: []byte("/r/"), B: []byte("/r0"), Rev: cur2, Limit: 0},
 		read{Kind: "list", A: []byte("/r/"), B: []byte("/r0"), Rev: floor, Limit: 0})
-	outs2 := make([]readOut, len(reads2))
-	found := 0
-	for i, r := range reads2 {
-		outs2[i] = doRead(n, r)
-		res.outcomes[outs2[i].outcome]++
+	if err := snap(h.ops2, floor); err != nil {
+		return fail(err.Error())
 	}
-	for _, o := range outs1 {
-		found += o.kvs
-	}
-	okw := 0
-	ops := func(l []lib.RSOp) string {
-		xs := make([]string, len(l))
-		for i, o := range l {
-			xs[i] = o.Coq()
+
+	found, okw := 0, 0
+	var ps []string
+	var jops []interface{}
+	for _, ph := range phases {
+		ps = append(ps, ph.coq())
+		res.nreads += len(ph.outs)
+		for _, o := range ph.outs {
+			found += o.kvs
+		}
+		var jo []interface{}
+		for _, o := range ph.ops {
+			jo = append(jo, o.JSON())
 			if o.OK {
 				okw++
 				res.outcomes["write-ok-"+o.Kind]++
@@ -325,34 +481,23 @@ func runHist(engine, scratch string, h hist, rr *lib.Rand, kind string, quick, f
 				res.outcomes["write-failed-"+o.Kind]++
 			}
 		}
-		return lib.List(xs)
-	}
-	o1, o2 := ops(h.ops1), ops(h.ops2)
-	coq := lib.App("mk_c03", lib.Bytes(lib.RSCompactKey), "true", o1, "\n "+coqPhase(dump1, cur1, outs1), "\n "+o2, lib.N(floor), "\n "+coqPhase(dump2, cur2, outs2))
-	var jo1, jo2 []interface{}
-	for _, o := range h.ops1 {
-		jo1 = append(jo1, o.JSON())
-	}
-	for _, o := range h.ops2 {
-		jo2 = append(jo2, o.JSON())
-	}
-	jsonCase["ops1"], jsonCase["ops2"] = jo1, jo2
-	jsonCase["compact_request"], jsonCase["floor"] = h.compact, floor
-	jsonCase["cur1"], jsonCase["cur2"] = cur1, cur2
-	jsonCase["reads"] = len(outs1) + len(outs2)
-	if full {
-		var rs []string
-		for _, o := range outs1 {
-			rs = append(rs, o.coq)
+		jp := map[string]interface{}{"ops": jo, "floor": ph.floor, "cur": ph.cur, "reads": len(ph.outs), "records": len(ph.dump)}
+		if full {
+			var rs []string
+			for _, o := range ph.outs {
+				rs = append(rs, o.coq)
+			}
+			jp["responses"] = rs
 		}
-		rs = append(rs, "--- phase 2 ---")
-		for _, o := range outs2 {
-			rs = append(rs, o.coq)
-		}
-		jsonCase["responses"] = rs
+		jops = append(jops, jp)
 	}
-	res.nreads = len(outs1) + len(outs2)
+	coq := lib.App("mk_c03", lib.Bytes(lib.RSCompactKey), "true", "[\n "+strings.Join(ps, ";\n ")+"]")
+	jsonCase["phases"] = jops
+	jsonCase["compact_request"] = h.compact
 	res.c = lib.Case{Coq: coq, JSON: jsonCase, Kind: kind + "/" + engine, Trivial: okw < 2 || found == 0}
+	if h.window {
+		res.c.Kind += "/window"
+	}
 	return
 }
 
@@ -378,6 +523,10 @@ func corpus() []hist {
 		{keys: []string{"/r/a", "/r/b"}, ops1: []lib.RSOp{c("/r/a", x), c("/r/a", x), u("/r/a", x, 55), d("/r/b", 0), u("/r/b", x, 101), d("/r/a", 77)}, ops2: []lib.RSOp{u("/r/a", x, 1<<40)}, compact: 0},
 		// range bounds with a trailing NUL (Kubernetes' continue keys), outside the documented alphabet
 		{keys: []string{"/r/a", "/r/a/b", "/r/b"}, ops1: []lib.RSOp{c("/r/a", x), c("/r/a/b", x), c("/r/b", x)}, ops2: nil, compact: math.MaxUint64, nul: true},
+		// a key alive at R is later deleted, another one deleted and re-created: old snapshots must not move; with a window
+		{keys: []string{"/r/a", "/r/ab", "/r/b"}, ops1: []lib.RSOp{c("/r/a", x), c("/r/ab", x), c("/r/b", x), u("/r/ab", []byte("x2"), 102)},
+			ops2: []lib.RSOp{d("/r/a", 0), d("/r/ab", 0), c("/r/ab", []byte("again")), d("/r/b", 103), c("/r/b", x), d("/r/b", 0)}, compact: math.MaxUint64, window: true},
+		{keys: []string{"/r/a", "/r/b"}, ops1: []lib.RSOp{c("/r/a", x), c("/r/b", x)}, ops2: []lib.RSOp{d("/r/a", 0)}, compact: 0, window: true},
 		// delete, compaction above the delete, re-creation
 		{keys: []string{"/r/a", "/r/b"}, ops1: []lib.RSOp{c("/r/a", x), c("/r/b", x), d("/r/a", 101), u("/r/b", []byte("b2"), 102)}, ops2: []lib.RSOp{c("/r/a", []byte("back")), d("/r/b", 0)}, compact: 104},
 	}
